@@ -394,7 +394,13 @@ def main(argv=None) -> int:
             unlisted.append((oracle, sig, lst))
     for (what, oracle), n in sorted(known_hits.items()):
         print(f"KNOWN-FINDING: property={prop} {what} [oracle={oracle}; seen {n}x in this run]")
-    for oracle, sig, lst in unlisted[:5]:
+    if unlisted:
+        print("violation classes found (oracle | signature | runs):")
+        for oracle, sig, lst in unlisted:
+            print(f"  {oracle} | {sig} | {len(lst)}")
+    reported = set()
+    max_report = int(os.environ.get("VERIF_MAX_REPORT", "6"))
+    for oracle, sig, lst in unlisted[:max_report]:
         v, plan, out = min(lst, key=lambda x: len(json.dumps(x[1], default=str)) if x[1] else 10**9)
         if plan is None:
             harness_errors.append("violation without plan")
@@ -409,12 +415,16 @@ def main(argv=None) -> int:
             harness_errors.append(f"violation oracle={oracle} sig={sig} seed={plan.get('seed')} did not replay: nondeterminism in harness")
             continue
         mout, mv = r
+        if (mv["oracle"], mv["sig"]) in reported:
+            rc = 1
+            continue
+        reported.add((mv["oracle"], mv["sig"]))
         path = write_replay(prop, mplan, mv, mout)
         print(f"VIOLATION property={prop} replay={path}")
         print(f"  oracle={mv['oracle']} sig={mv['sig']} seed={plan.get('seed')} (seen {len(lst)}x; {tried} shrink candidates tried)\n  {mv['detail']}")
         rc = 1
-    if len(unlisted) > 5:
-        print(f"  ... and {len(unlisted) - 5} more violation classes")
+    if len(unlisted) > max_report:
+        print(f"  ... {len(unlisted) - max_report} more violation classes not minimised (VERIF_MAX_REPORT)")
 
     # ---- harness health
     n_disc = sum(discards.values())
